@@ -35,6 +35,19 @@ REGISTRY = {
         ],
         "require": {"in-window-commit": 2000, "stale-event": 1000, "late-commit": 300, "generation-after-close": 200, "coalesced": 5, "multi-generation": 500},
     },
+    "C08": {
+        "level": "exploration",
+        "claim": "Generated peer frame sequences (all STypes/PTypes, with/without body, arbitrary header bytes, grouped 1-4 per TCP write, both roles, equipment/host, session validation on/off, a second TCP connection) against real connections in a virtual-time bubble; every frame the library sends back is compared field by field with an executable E37 responder model, plus handler deliveries, connection survival and State() at the quiescent end.",
+        "trust": "Trusts ref/fsm.Responder (written from the statement) and the in-memory network; shapes E37 leaves open (refusal of the library's own Select after the peer's Select succeeded; responses to a transaction answered in the same TCP write) are not generated.",
+        "technique": "property-based testing (rapid) with a model-based oracle over scripted-peer histories in testing/synctest",
+        "tests": [
+            {"name": "TestC08Responder", "shards": 8, "shards_thorough": 16},
+        ],
+        "require": {"c08:role:active": 2000, "c08:role:passive": 2000, "c08:select-first": 1000, "c08:select-duplicate": 500, "c08:deselect-selected": 500,
+                    "c08:deselect-not-selected": 500, "c08:reject-ptype": 500, "c08:reject-stype": 500, "c08:reject-control-with-body": 500,
+                    "c08:orphan-response": 500, "c08:separate-selected": 300, "c08:separate-ignored": 300, "c08:second-connection": 200,
+                    "c08:own-select-accepted": 300, "c08:own-select-refused": 50, "c08:data-not-selected": 500, "c08:data-delivered": 300},
+    },
     "C13": {
         "level": "exploration",
         "claim": 'Generated messages over the stated item grammar x all encoder options round-tripped through the strict encoder and strict parser; parser-accepted texts produced by a grammar-directed text generator re-encoded and re-parsed.',
